@@ -161,6 +161,8 @@ def run(ctx):
                 if oks:
                     a = arg_syms(ad)
                     oks = "'0'" in repr(a[1]) and "'1'" in repr(a[2])
+                    # ... the timestamp being that SAMPLE's own: not one element's (the batch's last) or the clock's for all
+                    oks = oks and not any(isinstance(x, tuple) and x and x[0] == "call" and isinstance(x[1], str) and strip_generics(x[1]).split("::")[-1] in ("last", "first", "get", "max", "min", "max_by_key", "min_by_key", "now", "recent", "last_mut", "nth") for x in sym_walk(a[2]))
                     rv = sums[0][1]["rv"]
                     s_a, s_b = strip_sym(fsy.operand(rv["a"])), strip_sym(fsy.operand(rv["b"]))
                     oks = oks and ("'0'" in repr(s_b) or "'0'" in repr(s_a))
@@ -295,15 +297,15 @@ def run(ctx):
             # held to exactly these positions below, so a private signature change is followed on both sides)
             kp = sym_arg(sym_through(strip_sym(recv[2][1])[2][0], *NAME_VIEW)) if ok else None
             adm_slots["name"] = kp[0] if kp else None
-            if v[0] == "agg" and v[1] == "tuple" and len(v[3]) == 2:
+            if v[0] == "agg" and v[3] is not None and len(v[3]) == 2:
+                # a tuple or a two-field record (description, unit): both come from the helper's own parameters (which is
+                # which is fixed by their types)
                 d_, u_ = sym_arg(v[3][0]), sym_arg(v[3][1])
                 ok = ok and d_ is not None and u_ is not None and d_[0] != u_[0]
                 if ok:
-                    adm_slots["desc"], adm_slots["unit"] = d_[0], u_[0]
+                    adm_slots["both"] = (d_[0], u_[0])
             elif sym_arg(v) is not None:
                 adm_slots["pair"] = sym_arg(v)[0]
-            else:
-                ok = False
         chk.ob("C07.e", adm.path, ok, "descriptions.entry(sanitised name).or_insert((description, unit)) and nothing else" if ok else "an existing description can be replaced (write through the entry / insert): HELP would not show the first description", adm.loc())
     # ... and is looked up under the name it was stored under: the key of the descriptions.get() whose result becomes the HELP
     # text is the family's sanitised name as iterated, never a name built afterwards (the unit-suffixed one)
@@ -338,13 +340,16 @@ def run(ctx):
                 ok = len(cs) == 1 and all((c.fn is cs[0].fn and c.bb == cs[0].bb) or c.is_(*VIEW) or c.is_("KeyName::as_str") for c in nonforeign_calls(f))
                 if ok:
                     a = arg_syms(cs[0])
-                    n_, d_, u_, t_ = (adm_slots.get(x) for x in ("name", "desc", "unit", "pair"))
+                    n_, both_, t_ = (adm_slots.get(x) for x in ("name", "both", "pair"))
                     ok = n_ is not None and n_ < len(a) and is_param(sym_through(a[n_], *VIEW, *NAME_VIEW), 1)
                     if t_ is not None:
                         pv = strip_sym(a[t_]) if t_ < len(a) else ("unknown",)
-                        ok = ok and pv[0] == "agg" and pv[1] == "tuple" and len(pv[3]) == 2 and is_param(pv[3][0], 3) and is_param(pv[3][1], 2)
+                        ok = ok and pv[0] == "agg" and pv[3] is not None and len(pv[3]) == 2 and {(sym_arg(x) or (None,))[0] for x in pv[3]} == {2, 3}
+                    elif both_ is not None:
+                        ok = ok and max(both_) < len(a) and {(sym_arg(a[i_]) or (None,))[0] for i_ in both_} == {2, 3}
                     else:
-                        ok = ok and d_ is not None and u_ is not None and max(d_, u_) < len(a) and is_param(a[d_], 3) and is_param(a[u_], 2)
+                        # the stored value is assembled in a way the helper's parameters cannot be read off: the positions as pinned
+                        ok = ok and len(a) > 3 and is_param(a[2], 3) and is_param(a[3], 2)
                 chk.ob("C07.e", f.path, ok, "add_description_if_missing(&name, description, unit)" if ok else "describe does not pass (name, description, unit) to add_description_if_missing in those positions", f.loc())
             f = rec.get(f"register_{k}")
             if f:
